@@ -30,7 +30,12 @@ type C16Case struct {
 }
 
 // tag assigns unique Z = i, M = -i to every position (a ring's closing position repeats the first).
-func c16Tag(g gm.G) gm.G {
+func c16Tag(g gm.G) gm.G { return c16TagWith(g, false) }
+
+// c16TagWith: with distinctClosing a ring's closing position gets tags of its own (it repeats the first
+// position in XY only - still a closed ring - so that an operation which moves or keeps the wrong end vertex
+// is visible).
+func c16TagWith(g gm.G, distinctClosing bool) gm.G {
 	i := 0
 	var rec func(n gm.G) gm.G
 	tagFlat := func(fs []gm.F, ct int, ring bool) []gm.F {
@@ -40,7 +45,7 @@ func c16Tag(g gm.G) gm.G {
 		for k := 0; k < cnt; k++ {
 			i++
 			z, m := gm.F(i), gm.F(-i)
-			if ring && k == cnt-1 && cnt > 1 && fs[0] == fs[k*d] && fs[1] == fs[k*d+1] {
+			if !distinctClosing && ring && k == cnt-1 && cnt > 1 && fs[0] == fs[k*d] && fs[1] == fs[k*d+1] {
 				// closing position: same tags as the first
 				copy(out[k*d:], out[:d])
 				continue
@@ -80,7 +85,7 @@ func c16Gen(t *rapid.T, cx *h.Ctx) C16Case {
 	valid := rapid.Bool().Draw(t, "valid")
 	xy := func(t *rapid.T, l string) float64 { return float64(rapid.IntRange(-40, 40).Draw(t, l)) }
 	g := gen.Structure(t, gen.Opts{XY: xy, ZM: xy, CT: -1, AllowZero: true, ValidShapes: valid, ClosedRings: true})
-	c := C16Case{G: c16Tag(g), Valid: valid}
+	c := C16Case{G: c16TagWith(g, rapid.Bool().Draw(t, "distinctclosing")), Valid: valid}
 	c.Mixed = rapid.SliceOfN(rapid.IntRange(0, 3), 1, 5).Draw(t, "mixed")
 	c.Densify = float64(rapid.IntRange(1, 40).Draw(t, "densify")) / 2
 	c.Simplify = float64(rapid.IntRange(0, 20).Draw(t, "simplify")) / 2
@@ -101,6 +106,59 @@ func positions(g gm.G) [][]gm.F {
 }
 
 func posKey(p []gm.F) string { return fmt.Sprint(p) }
+
+// c16Seqs lists the position sequences (points, lines, rings) of a model in structural order.
+func c16Seqs(g gm.G) [][]gm.F {
+	var out [][]gm.F
+	g.Norm().Walk(func(n gm.G) {
+		if len(n.Co) > 0 {
+			out = append(out, n.Co)
+		}
+		for _, r := range n.Rings {
+			out = append(out, r)
+		}
+	})
+	return out
+}
+
+// c16SeqMatch: the sequences of out are those of in, each kept or exactly reversed (mustReverse: reversed;
+// palindromic sequences satisfy both), matched as multisets so that member order does not matter.
+func c16SeqMatch(in, out gm.G, mustReverse bool) string {
+	a, b := c16Seqs(in), c16Seqs(out)
+	if len(a) != len(b) {
+		return fmt.Sprintf("%d position sequences became %d", len(a), len(b))
+	}
+	d := gm.Dim(in.Norm().CT)
+	used := make([]bool, len(a))
+	for _, s := range b {
+		found := false
+		for i, t := range a {
+			if used[i] || len(t) != len(s) {
+				continue
+			}
+			fwd, rev := true, true
+			n := len(s) / d
+			for k := 0; k < n; k++ {
+				for j := 0; j < d; j++ {
+					if s[k*d+j] != t[k*d+j] && !(s[k*d+j] != s[k*d+j] && t[k*d+j] != t[k*d+j]) {
+						fwd = false
+					}
+					if s[k*d+j] != t[(n-1-k)*d+j] && !(s[k*d+j] != s[k*d+j] && t[(n-1-k)*d+j] != t[(n-1-k)*d+j]) {
+						rev = false
+					}
+				}
+			}
+			if rev || (fwd && !mustReverse) {
+				used[i], found = true, true
+				break
+			}
+		}
+		if !found {
+			return fmt.Sprintf("the sequence %v of the result is not a sequence of the input%s", s, map[bool]string{true: " reversed", false: " (as it was or exactly reversed)"}[mustReverse])
+		}
+	}
+	return ""
+}
 
 func multisetEq(a, b [][]gm.F) bool {
 	if len(a) != len(b) {
@@ -293,6 +351,11 @@ func c16Check(c C16Case, cx *h.Ctx) *h.Failure {
 		if !multisetEq(pos, positions(gm.FromGeom(v.x))) {
 			return fail("ctype/op-payload", "%s does not carry each vertex's Z/M with its XY: positions %v became %v", v.name, pos, positions(gm.FromGeom(v.x)))
 		}
+		// sequence by sequence: every line / ring of the result is a line / ring of the input, as it was or
+		// exactly reversed (Reverse: exactly reversed) - in particular the end vertices travel with their Z/M
+		if msg := c16SeqMatch(model, gm.FromGeom(v.x), v.name == "Reverse"); msg != "" {
+			return fail("ctype/op-sequence", "%s: %s", v.name, msg)
+		}
 	}
 	// Dump: flattened members carry the same positions
 	var dumped [][]gm.F
@@ -402,7 +465,18 @@ func c16Check(c C16Case, cx *h.Ctx) *h.Failure {
 			{"Union(g,g)", func() (geom.Geometry, error) { return geom.Union(g, g) }},
 			{"Intersection(g,hull)", func() (geom.Geometry, error) { return geom.Intersection(g, g.ConvexHull()) }},
 			{"Difference(hull,g)", func() (geom.Geometry, error) { return geom.Difference(g.ConvexHull(), g) }},
-			{"SymmetricDifference(g,envelope)", func() (geom.Geometry, error) { return geom.SymmetricDifference(g, g.Envelope().AsGeometry()) }}} {
+			{"SymmetricDifference(g,envelope)", func() (geom.Geometry, error) { return geom.SymmetricDifference(g, g.Envelope().AsGeometry()) }},
+			// an empty operand of the same / another coordinate type in either position (short-cut paths)
+			{"Difference(g,empty same type)", func() (geom.Geometry, error) { return geom.Difference(g, geom.Polygon{}.ForceCoordinatesType(ct).AsGeometry()) }},
+			{"Difference(g,empty XY)", func() (geom.Geometry, error) { return geom.Difference(g, geom.Point{}.AsGeometry()) }},
+			{"Difference(empty,g)", func() (geom.Geometry, error) { return geom.Difference(geom.LineString{}.ForceCoordinatesType(ct).AsGeometry(), g) }},
+			{"Union(g,empty)", func() (geom.Geometry, error) { return geom.Union(g, geom.MultiPoint{}.ForceCoordinatesType(ct).AsGeometry()) }},
+			{"Union(empty,g)", func() (geom.Geometry, error) { return geom.Union(geom.GeometryCollection{}.ForceCoordinatesType(ct).AsGeometry(), g) }},
+			{"SymmetricDifference(g,empty)", func() (geom.Geometry, error) { return geom.SymmetricDifference(g, geom.MultiPolygon{}.ForceCoordinatesType(ct).AsGeometry()) }},
+			{"SymmetricDifference(empty,g)", func() (geom.Geometry, error) { return geom.SymmetricDifference(geom.Geometry{}, g) }},
+			{"Intersection(g,empty)", func() (geom.Geometry, error) { return geom.Intersection(g, geom.MultiLineString{}.ForceCoordinatesType(ct).AsGeometry()) }},
+			{"Intersection(empty,g)", func() (geom.Geometry, error) { return geom.Intersection(geom.Point{}.ForceCoordinatesType(ct).AsGeometry(), g) }},
+			{"UnionMany(g,empty,g)", func() (geom.Geometry, error) { return geom.UnionMany([]geom.Geometry{g, geom.Polygon{}.ForceCoordinatesType(ct).AsGeometry(), g}) }}} {
 			if r, err := op.fn(); err == nil {
 				xyOnly = append(xyOnly, struct {
 					name string
